@@ -93,6 +93,7 @@ SPEC = dict(
     props_file="C17.v",
     module="LMPyGlue.C17",
     harness_bin="lmpy",
+    harness_build=build_lmpy,   # used by ./check setup (vlib/setup.py): own crate, not /verif/harness
     harness_args=["py", os.path.join(PY, "c17_main.py")],
     ml_modules=["pyglue_model"],
     ocaml_packages=("str", "zarith"),
